@@ -48,6 +48,11 @@ func byteLen(x *big.Int) int { return len(x.Bytes()) }
 
 // c08Eval returns a violation key (classifying which packed field is short) and message, or "" if fine.
 func c08Eval(cs *c08Case) (key, msg string, err error) {
+	defer func() {
+		if r := recover(); r != nil {
+			key, msg, err = "panic|"+cs.Kind, fmt.Sprintf("input-hash helper panics: %v", r), nil
+		}
+	}()
 	switch cs.Kind {
 	case "ins":
 		p := prover.InsertionParameters{StartIndex: cs.Start, PreRoot: *bigs(cs.Pre), PostRoot: *bigs(cs.Post)}
